@@ -207,6 +207,14 @@ func (g *generator) buildMethod(genMethod *generatedMethod, context map[string]*
 			funcBlock = append(funcBlock, jen.Return().Nil())
 		}
 	} else if def, err := g.extend.Get(ctx.Signature, context); def != nil {
+		if genMethod.EnumMapping != nil && (len(genMethod.EnumMapping.Map) > 0 || len(genMethod.EnumMapping.Transformers) > 0) {
+			return builder.NewError(fmt.Sprintf(`Unused enum settings found.
+
+The method delegates to the custom function with the same signature:
+    %s
+
+and therefore its goverter:enum:map and goverter:enum:transform settings would be ignored.`, def.OriginID))
+		}
 		if len(genMethod.RawFieldSettings) > 0 {
 			return builder.NewError(fmt.Sprintf(`Unused struct settings found.
 
